@@ -1,7 +1,9 @@
 (* Properties/C04.v -- C04: frame indifference and crystal-symmetry invariance of rates *)
 From Coq Require Import Reals ZArith List.
 From PV Require Import Num NumR Model_core Spec_drex Proofs_core Proofs_total Proofs_spec
-                       Proofs_frame Proofs_frame2 Proofs_frame3 Proofs_twofold Proofs_twofold2.
+                       Proofs_frame Proofs_frame2 Proofs_frame3 Proofs_twofold Proofs_twofold2
+                       Model_minerals Proofs_minerals Proofs_rhs Proofs_flow Proofs_path Proofs_path2 Proofs_path3 Proofs_path6.
+From Coquelicot Require Import Hierarchy Derive.
 From PV.gen Require Import Gen_core.
 Import ListNotations.
 Open Scope R_scope.
@@ -91,3 +93,62 @@ Proof. exact twofolds_ok. Qed.
 
 Example C04_nonvacuous : SO3 Qex /\ Qex 1%nat <> 0.
 Proof. exact C04_nonvacuous_proof. Qed.
+
+(* ---- the WHOLE integrated vector field, and its exact solutions ------------------------------------------
+   rotS Q n y is the state seen from the rotated frame: F -> Q F Q^T (indices 0..8), every grain A_g -> A_g Q^T
+   (indices 9 + 9 g + k), volume fractions unchanged; LQ Q L = Q L Q^T.  vf is the vector field LSODA integrates
+   (Model_minerals.rhs through extract_vars), s the strain-rate scale (frame invariant: C05 / is_eigmax).
+   At every state whose grains lie inside the clip range of extract_vars in both frames (true of orthonormal
+   grains) the field of the rotated problem at the rotated state is the rotated field: *)
+Theorem C04_vector_field_frame_indifferent :
+  forall (regime ph fb : Z) (n : nat) (ass : list Z) (frs Sd : list R) (p nn lam M : R)
+         (Q : arr R) (L : list R) (s : R) (y : nat -> R) (i : nat),
+  dislocation_regime regime -> valid_pair ph fb -> nn <> 0 -> SO3 Q -> length L = 9%nat ->
+  (forall g k, (g < n)%nat -> (k < 9)%nat -> -1 <= y (9 + 9 * g + k)%nat <= 1) ->
+  (forall g k, (g < n)%nat -> (k < 9)%nat -> -1 <= rotS Q n y (9 + 9 * g + k)%nat <= 1) ->
+  (i < 9 + 10 * n)%nat ->
+  vf regime ph fb n ass frs Sd p nn lam M (LQ Q L) s (rotS Q n y) i
+  = rotS Q n (vf regime ph fb n ass frs Sd p nn lam M L s y) i.
+Proof. exact vf_frame. Qed.
+
+(* integrated textures: if y(t) is an exact solution for the history L(t), then the rotated trajectory
+   rotY n Q y i t = rotS Q n (y . t) i is an exact solution for the history Q L(t) Q^T -- orientations co-rotate,
+   every volume fraction is the same function of time, the deformation gradient becomes Q F Q^T *)
+Theorem C04_exact_solutions_corotate :
+  forall (regime ph fb : Z) (n : nat) (ass : list Z) (frs Sd : list R) (p nn lam M : R) (Lh : R -> list R) (sh : R -> R)
+         (Q : arr R) (y : nat -> R -> R) (a b : R),
+  dislocation_regime regime -> valid_pair ph fb -> nn <> 0 -> SO3 Q ->
+  (forall t, length (Lh t) = 9%nat) ->
+  (forall i t, a <= t <= b -> is_derive (y i) t (f regime ph fb n ass frs Sd p nn lam M Lh sh t (fun j => y j t) i)) ->
+  (forall g k t, (g < n)%nat -> (k < 9)%nat -> a <= t <= b -> -1 <= y (9 + 9 * g + k)%nat t <= 1) ->
+  (forall g k t, (g < n)%nat -> (k < 9)%nat -> a <= t <= b -> -1 <= rotY n Q y (9 + 9 * g + k)%nat t <= 1) ->
+  forall i t, (i < 9 + 10 * n)%nat -> a <= t <= b ->
+    is_derive (rotY n Q y i) t
+      (f regime ph fb n ass frs Sd p nn lam M (fun u => LQ Q (Lh u)) sh t (fun j => rotY n Q y j t) i).
+Proof. exact solution_frame. Qed.
+
+(* ... and for textures of orthonormal grains nothing has to be assumed about the clip: bounded rates suffice
+   (Gronwall invariance of the orthonormal set, C01_solution_orthonormality_invariant; rows of A Q^T have the
+   norms of the rows of A) *)
+Theorem C04_orthonormal_textures_corotate :
+  forall (regime ph fb : Z) (n : nat) (ass : list Z) (frs Sd : list R) (p nn lam M : R) (Lh : R -> list R) (sh : R -> R)
+         (Q : arr R) (y : nat -> R -> R) (a b B : R),
+  dislocation_regime regime -> valid_pair ph fb -> nn <> 0 -> SO3 Q -> a <= b ->
+  (forall t, length (Lh t) = 9%nat) ->
+  (forall i t, a <= t <= b -> is_derive (y i) t (f regime ph fb n ass frs Sd p nn lam M Lh sh t (fun j => y j t) i)) ->
+  (forall g k t, (g < n)%nat -> (k < 9)%nat -> a <= t <= b ->
+     Rabs (f regime ph fb n ass frs Sd p nn lam M Lh sh t (fun j => y j t) (9 + 9 * g + k)%nat) <= B) ->
+  (forall g r r', (g < n)%nat -> (r < 3)%nat -> (r' < 3)%nat ->
+     gram (grainA y g) r r' a = if Nat.eqb r r' then 1 else 0) ->
+  forall i t, (i < 9 + 10 * n)%nat -> a <= t <= b ->
+    is_derive (rotY n Q y i) t
+      (f regime ph fb n ass frs Sd p nn lam M (fun u => LQ Q (Lh u)) sh t (fun j => rotY n Q y j t) i).
+Proof. exact solution_frame_orthonormal. Qed.
+
+(* non-vacuity: the 3-4-5 rotation about z is in SO3; olivine A-type is a valid pair; both grains of the constant
+   solution y0_example (C01_solution_nonvacuous) are orthonormal *)
+Example C04_solution_frame_nonvacuous :
+  SO3 Q345 /\ valid_pair 0 0 /\ (3.5 <> 0) /\
+  (forall g r r', (g < 2)%nat -> (r < 3)%nat -> (r' < 3)%nat ->
+     gram (grainA (fun (i : nat) (_ : R) => y0_example i) g) r r' 0 = if Nat.eqb r r' then 1 else 0).
+Proof. exact frame_solution_nonvacuous_proof. Qed.
